@@ -49,6 +49,23 @@ func c03IsSortAll(i ssa.Instruction) bool {
 		}
 		return false
 	}
+	if call, isCall := i.(*ssa.Call); isCall && !call.Call.IsInvoke() && call.Call.StaticCallee() == nil && len(call.Call.Args) == 1 {
+		// for h := range maps.Values(t) { sort.Sort(h) }: the iterator of the standard library calls the loop body
+		// (a closure) for every entry of the table
+		if seq, isSeq := call.Call.Value.(*ssa.Call); isSeq && len(seq.Call.Args) == 1 && c03IsTableT(seq.Call.Args[0].Type()) {
+			switch c03Name(&seq.Call) {
+			case "maps.Values", "maps.All":
+				fns := funcsOf(call.Call.Args[0])
+				for _, g := range fns {
+					if !mustExec(g, c03IsElemSort, 1) {
+						return false
+					}
+				}
+				return len(fns) > 0
+			}
+		}
+		return false
+	}
 	rg, ok := i.(*ssa.Range)
 	if !ok {
 		return false
@@ -193,9 +210,45 @@ type c03ctorCk struct {
 
 // reachesApplier: calling g may apply a route command.
 func (k *c03ctorCk) reachesApplier(g *ssa.Function) bool {
-	for _, h := range k.c.regionDepth(3, g) {
+	reg := k.c.regionDepth(3, g)
+	for _, h := range reg {
 		if c03IsApplier(h) {
 			return true
+		}
+	}
+	// table-driven dispatch: the region calls a function value that takes a route.Table and a *route.RouteDef
+	hit := false
+	eachInstrOf(reg, func(_ *ssa.Function, i ssa.Instruction) {
+		if cc := callCommon(i); cc != nil && !cc.IsInvoke() && cc.StaticCallee() == nil && c03HoldsAppliers(cc.Value.Type()) {
+			hit = true
+		}
+	})
+	return hit
+}
+
+// appliesCommands: the call may apply a route command: a static call of a repository function that reaches an
+// applier, a call of a function value that does, or a call that is handed such a function (an iterator driving the
+// loop body `for d := range seq { t.addRoute(d) }`, a visitor).
+func (k *c03ctorCk) appliesCommands(call *ssa.Call) bool {
+	if sc := call.Call.StaticCallee(); sc != nil {
+		if isRepoFn(sc) && k.reachesApplier(sc) {
+			return true
+		}
+	} else if !call.Call.IsInvoke() {
+		for _, g := range c03CalleesOf(call.Call.Value) {
+			if isRepoFn(g) && k.reachesApplier(g) {
+				return true
+			}
+		}
+	}
+	for _, a := range call.Call.Args {
+		if _, isFn := a.Type().Underlying().(*types.Signature); !isFn {
+			continue
+		}
+		for _, g := range c03CalleesOf(a) {
+			if isRepoFn(g) && k.reachesApplier(g) {
+				return true
+			}
 		}
 	}
 	return false
@@ -203,7 +256,7 @@ func (k *c03ctorCk) reachesApplier(g *ssa.Function) bool {
 
 // sortedReturn: the table carried by return r of f has every host's routes sorted.
 func (k *c03ctorCk) sortedReturn(f *ssa.Function, r *ssa.Return, v ssa.Value, depth int) bool {
-	if isNilConst(v) {
+	if c03IsNilValue(v, 0) {
 		return true
 	}
 	ok := !c03ReachFromEntry(f, r, c03IsSortAll)
@@ -214,8 +267,7 @@ func (k *c03ctorCk) sortedReturn(f *ssa.Function, r *ssa.Return, v ssa.Value, de
 			if !isCall || !ok {
 				return
 			}
-			sc := call.Call.StaticCallee()
-			if sc == nil || !isRepoFn(sc) || !k.reachesApplier(sc) {
+			if !k.appliesCommands(call) {
 				return
 			}
 			if pathAvoiding(i, r, c03IsSortAll) {
@@ -251,7 +303,7 @@ func (k *c03ctorCk) allSorted(g *ssa.Function, depth int) bool {
 	idx := c03TableResult(g)
 	ok := true
 	eachInstr(g, func(i ssa.Instruction) {
-		if r, isR := i.(*ssa.Return); isR && idx >= 0 && idx < len(r.Results) && !k.sortedReturn(g, r, r.Results[idx], depth) {
+		if r, isR := i.(*ssa.Return); isR && idx >= 0 && idx < len(r.Results) && !(r.Block() == g.Recover && !c03Recovers(g)) && !k.sortedReturn(g, r, r.Results[idx], depth) {
 			ok = false
 		}
 	})
@@ -275,8 +327,11 @@ func runC03O1(c *Ctx) {
 		n := 0
 		eachInstr(f, func(i ssa.Instruction) {
 			r, ok := i.(*ssa.Return)
-			if !ok || idx < 0 || idx >= len(r.Results) || isNilConst(r.Results[idx]) {
+			if !ok || idx < 0 || idx >= len(r.Results) || c03IsNilValue(r.Results[idx], 0) {
 				return
+			}
+			if r.Block() == f.Recover && !c03Recovers(f) {
+				return // the return after a recovered panic, in a function none of whose deferred calls recovers
 			}
 			n++
 			c.check("C03.O1", label+"|routes of every host sorted before the table is returned", r.Pos(), k.sortedReturn(f, r, r.Results[idx], 0), detail)
